@@ -191,6 +191,16 @@ def operator_mix():
             out.append((('post', o1, i, 'outer'), pf(binop(o1, A, B))))
     for o1, o2, o3 in itertools.product(['//', '>>', '<<', '|', '|>'], repeat=3):
         out.append((('triple', o1, o2, o3), binop(o3, binop(o1, A, binop(o2, B, C)), A)))
+    # postfix on postfix: e+? e*? e{1,2}? e?{2} e+{1,2} ... (the operator spelling stacks suffixes, the
+    # constructor spelling nests calls)
+    def pf(kind, x):
+        return {'opt': ('opt', x), 'star': ('star', x), 'plus': ('plus', x), 'rep12': ('rep', x, 1, 2), 'rep2_': ('rep', x, 2, None),
+                'rep_2': ('rep', x, None, 2), 'rep2': ('rep', x, 2, 2)}[kind]
+    kinds = ['opt', 'star', 'plus', 'rep12', 'rep2_', 'rep_2', 'rep2']
+    for outer in kinds:
+        for inner in kinds:
+            for base in (A, ('alt', [('str', 'ab'), ('str', 'a')])):
+                out.append((('postfix2', outer, inner), ('seq', [pf(outer, pf(inner, base)), ('re', '[ab]*', False)])))
     # let bodies, sequences and calls as operands
     out.append((('let',), ('alt', [('let', 'x', A, ('seq', [B, ('py', 'x')])), ('right', B, ('let', 'y', C, ('py', 'y')))])))
     out.append((('table',), ('alt', [('optable', C, [('prefix', [('str', '-')]), ('left', [('str', '+')])]), ('str', '!')])))
